@@ -4,6 +4,7 @@ mod dynval;
 mod ops;
 mod run;
 mod svc;
+mod loopback;
 mod util;
 
 use run::Tier;
@@ -53,6 +54,7 @@ fn main() {
                 "C10" => run::finish(ops::c10::cases(seed, tier), &driver, &out, seed, tier, ops::c10::RULE, serde_json::json!({})),
                 "C19" => run::finish(ops::ep::cases("C19", seed, tier), &driver, &out, seed, tier, ops::ep::RULE_C19, serde_json::json!({})),
                 "C09" => run::finish(ops::ep::cases("C09", seed, tier), &driver, &out, seed, tier, ops::ep::RULE_C09, serde_json::json!({})),
+                "C04" => run::finish(ops::c04::cases(seed, tier), &driver, &out, seed, tier, ops::c04::RULE, serde_json::json!({})),
                 "C14" => run::finish(ops::c14::cases(seed, tier), &driver, &out, seed, tier, ops::c14::RULE, serde_json::json!({})),
                 "C07" => run::finish(ops::c07::cases(seed, tier), &driver, &out, seed, tier, ops::c07::RULE, serde_json::json!({})),
                 _ => Err(format!("unknown property {}", prop)),
